@@ -6,7 +6,9 @@ name = sys.argv[1]
 def log(repo, rng):
     out = subprocess.run(['git', '-C', repo, 'log', '--format=%h %s', rng], capture_output=True, text=True).stdout
     return [l.split(' ', 1) for l in out.strip().split('\n') if l]
-old = log(f'/work/{name}/repo', '8f401d8..HEAD')
+import os
+rb = open(f'/work/{name}/RBASE').read().strip() if os.path.exists(f'/work/{name}/RBASE') else '8f401d8'
+old = log(f'/work/{name}/repo', rb + '..HEAD')
 new = {s: h for h, s in log('/repo', 'c4faa05..HEAD')}
 mp = {h: new[s] for h, s in old if s in new}
 print(mp)
